@@ -180,14 +180,8 @@ fn tt_image(tt: &Hashtable<TTEntry>, probe: &[u64]) -> String {
     // otherwise poll the probe keys given (keys touched by the search are supplied by the caller).
     let len = tt.len();
     let mut out = format!("{}", len);
-    let mut slots: Vec<u64> = if len <= 4096 {
-        (0..len as u64).collect()
-    } else {
-        let mut v: Vec<u64> = probe.iter().map(|k| k % len as u64).collect();
-        v.sort();
-        v.dedup();
-        v
-    };
+    let _ = probe;
+    let mut slots: Vec<u64> = (0..len as u64).collect();
     slots.sort();
     for s in slots {
         let e = tt.poll(s);
